@@ -106,8 +106,6 @@ func c02SanCase(r *Rng, n int, canonical bool) []*c02Err {
 	return out
 }
 
-var c02posSpecs = map[*c02Err]c02PosSpec{}
-
 func (e *c02Err) setPos(ps c02PosSpec, files map[int]*token.File, fileName map[int]string) {
 	switch {
 	case ps.fid == 0 && ps.bits == 0:
@@ -168,7 +166,7 @@ func c02SanImpl(es []*c02Err) (out []*c02Err, printed string) {
 }
 
 func c02RunSanitize(c *Cfg, root *Rng) {
-	n := c.Pick(6000, 120000)
+	n := c.Pick(6000, 60000)
 	for i := 0; i < n; i++ {
 		r := root.Sub()
 		canonical := r.Chance(2, 5)
@@ -317,7 +315,7 @@ func c02TopoImpl(rt *runtime.Runtime, labels []c02Label, edges [][2]int) (res st
 
 func c02RunToposort(c *Cfg, root *Rng) {
 	rt := runtime.New()
-	n := c.Pick(4000, 80000)
+	n := c.Pick(4000, 40000)
 	for i := 0; i < n; i++ {
 		r := root.Sub()
 		ties := r.Chance(1, 6)
@@ -380,7 +378,13 @@ func c02RunToposort(c *Cfg, root *Rng) {
 			res2, _ := c02TopoImpl(rt, labels, edges)
 			if res2 != res {
 				same = false
-				c.Direct(false, "toposort-rawstring-tie", "toposort.Graph.Sort gives different orders for the same nodes and edges", map[string]any{"labels": ls, "edges": es, "order1": res, "order2": res2, "labels_with_equal_RawString": hasTie})
+				// only graphs that really contain two labels with one RawString belong to the known
+				// class; instability of a tie-free graph is a different defect
+				class := "toposort-order-unstable"
+				if hasTie {
+					class = "toposort-rawstring-tie"
+				}
+				c.Direct(false, class, "toposort.Graph.Sort gives different orders for the same nodes and edges", map[string]any{"labels": ls, "edges": es, "order1": res, "order2": res2, "labels_with_equal_RawString": hasTie})
 				break
 			}
 		}
